@@ -103,6 +103,7 @@ M("C03", "c03_m_blockring_reorg", [BR + "on_chain_reorganization", RI + "on_chai
 M("C03", "c03_m_blockring_delete", ["BlockRing::delete_block", "RingItem::delete_block"], "ring of 4 slots (2/1/1/1 and 1/1/2/1 entries), ids arbitrary u64 consistent with their slot (so also >= ring size), hashes and designations symbolic", covers=2)
 M("C03", "c03_m_tx_wind_unwind", ["Transaction::on_chain_reorganization", "Slip::on_chain_reorganization"], "1..=2 inputs x 1..=2 outputs (thorough 0..=3 each), amounts (0 included) and 59-byte keys symbolic, one unrelated utxoset entry; wind and unwind")
 M("C03", "c03_unwind_full_before_revert", ["Blockchain::validate", "Blockchain::wind_chain", "Blockchain::unwind_chain"], "segments (2,1) and (3,2), every validity pattern; event order on every path", covers=2)
+M("C03", "c03_m_block_reorg_step", ["Block::on_chain_reorganization"], "blocks of 0..=2 transactions, flag and previous flag symbolic: flag stored, every transaction applied/reverted with it", covers=1)
 M("C03", "c03_reorg_sequence", ["Blockchain::validate", "Blockchain::wind_chain", "Blockchain::unwind_chain"], "same universe as c04_machine", covers=4)
 # ============================================================================== C08
 PROPERTY_ASSUMPTIONS["C08"] = [
@@ -134,6 +135,7 @@ PROPERTY_ASSUMPTIONS["C05"] = [
 M("C05", "c05_longest_chain_rule", ["saito_core::core::consensus::blockchain::Blockchain::is_new_chain_the_longest_chain"],
   "new segment 1..=3 blocks x old segment 0..=3 blocks (thorough: up to 4), every id / burn fee / latest id; answer compared with the u128 reference rule")
 M("C05", "c05_validate_gt_gate", ["Blockchain::validate (async body; wind_chain / unwind_chain inlined)"], "segments (|new|,|old|) in {(1,0),(2,1),(3,1)}; the check's answer and every block's validity free", covers=3)
+M("C05", "c05_orphan_disturbs_nothing", ["Blockchain::add_block (async body, up to the fork-choice comparison)"], "every path of the prefix (about 400); the disconnect loop cut at its first write; classes block id >= tip id (must hold) and < tip id (known finding)", covers=1)
 M("C05", "c05_gt_window", ["saito_core::core::consensus::blockchain::is_golden_ticket_count_valid_"],
   "ancestor chains of depth 0..=6 with every golden-ticket flag pattern, current-block flag and bypass symbolic")
 
@@ -169,16 +171,19 @@ PROPERTY_ASSUMPTIONS["C06"] = [
 M("C06", "c06_validate_sig_gate", [BVX], "every path of the body returning true; verify_signature's verdict free")
 M("C06", "c06_validate_root_gate", [BVX], "every path returning true; generate_merkle_root's result and self.merkle_root free 32-byte values")
 M("C06", "c06_merkle_commits_every_tx", ["saito_core::core::consensus::merkle::MerkleTree::generate (leaf construction)"], "blocks of 1..=3 transactions, txs_replacements any value 0..=3 per transaction (4^n patterns), hashes symbolic", covers=3)
+M("C06", "c06_merkle_root_recomputed", ["Block::generate_merkle_root"], "blocks carrying 1..=2 transactions, is_browser / is_spv symbolic", covers=1)
 M("C06", "c06_validate_txs_gate", [BVX], "every path returning true; the transaction sweep's verdict free")
 PROPERTY_ASSUMPTIONS["C08"] += ["gates: all paths of Block::validate with free callee results (same exploration and path selection as C06)"]
 M("C08", "c08_block_work_gate", [BVX, "BurnFee::return_routing_work_needed_to_produce_block_in_nolan (uninterpreted)"], "every path returning true with a known non-ghost parent; total_work and the requirement free u64")
 M("C08", "c08_block_gt_gate", [BVX, "GoldenTicket::validate (uninterpreted)"], "every path returning true on which a golden ticket is examined")
+M("C08", "c08_winning_router_eligible", ["Transaction::get_winning_routing_node"], "0..=3 hops (thorough 5), 0..=2 inputs, fee within the token supply, lottery remainder a symbolic input below the aggregate work", covers=1)
 PROPERTY_ASSUMPTIONS["C13"] = [
     "engine M gates only: the validator requires the block's rebroadcast commitment to equal the recomputed one, and the in-block double-spend scan treats ATR transactions like any other spender. Which outputs are selected for rebroadcast, their amounts, 'exactly once' and expiry over histories are outside the claim",
 ]
 M("C13", "c13_validate_rebroadcast_gate", [BVX], "every path returning true with validate_against_utxo = true; both commitments free values")
 M("C13", "c13_generate_commits_every_atr", ["saito_core::core::consensus::block::Block::generate (second sweep)"], "blocks of 1..=2 transactions with 2 outputs each, every transaction type and output slip type symbolic", covers=2)
 M("C01", "c01_generate_commits_every_atr", ["saito_core::core::consensus::block::Block::generate (second sweep)"], "same as c13_generate_commits_every_atr: the privileged ATR type cannot bypass the commitment", covers=2)
+M("C01", "c01_unwind_full_before_revert", ["Blockchain::unwind_chain (async body)", "Blockchain::wind_chain"], "same as c03_unwind_full_before_revert: event order on every path, |new| 1..=2, |old| 0..=1", covers=2)
 M("C02", "c02_generate_commits_every_atr", ["saito_core::core::consensus::block::Block::generate (second sweep)"], "same as c13_generate_commits_every_atr: the ATR type, exempt from the no-mint comparison, cannot bypass the commitment", covers=2)
 M("C13", "c13_pruned_block_selection", ["Block::generate_consensus_values (async body, up to the point where the block leaving the window is loaded)"], "block id and genesis period symbolic; parent block not indexed (its arithmetic is independent and skipped)", covers=1)
 M("C13", "c13_atr_inputs_recorded", [CLO], "ATR-typed transactions with 1..=2 inputs, one arbitrary key already recorded for the block")
@@ -191,6 +196,7 @@ PROPERTY_ASSUMPTIONS["C04"] = [
     "wallet slips, stored blocks and the full observable snapshot after a real failed reorganisation are outside the claim",
 ]
 M("C04", "c04_index_cleanup", ["BlockRing::delete_block", "RingItem::delete_block"], "same as c03_m_blockring_delete: rejecting a block removes exactly its (id, hash) from the chain index, for any id", covers=2)
+M("C04", "c04_rejected_block_writes_nothing", ["Blockchain::add_block (async body, up to the fork-choice comparison)"], "every path that returns before the fork-choice step (about 10 of 400); block id/hash/parent, tip, genesis period, stored/loading flags symbolic; writes = BlockRing::add_block/on_chain_reorganization/delete_block, blocks.insert/remove", covers=1)
 M("C04", "c04_machine", ["Blockchain::validate", "Blockchain::wind_chain", "Blockchain::unwind_chain"], "see assumptions; one class per (|new|, |old|, validity pattern forced by the path)", covers=4)
 
 # ============================================================================== C16
@@ -263,7 +269,7 @@ PROPERTY_ASSUMPTIONS["C02"] = [
     "verify_signature, routing-path validation and utxoset lookups are free verdicts",
 ]
 M("C02", "c02_tx_no_mint", ["Transaction::generate_total_fees", "Transaction::validate", "Transaction::validate_against_utxoset", "Slip::validate"],
-  "user types Normal / GoldenTicket / Vip; (inputs, outputs) in {(1,2),(2,2),(1,3)} (thorough up to 3 x 4); every amount and slip type symbolic; totals compared in 128-bit arithmetic", covers=3)
+  "user types Normal / GoldenTicket / Vip; (inputs, outputs) in {(1,2),(2,2),(1,3)} (thorough: all of 1..=3 x 1..=3); every amount and slip type symbolic; totals compared in 128-bit arithmetic", covers=3)
 M("C02", "c02_cv_fee_accounting", ["Block::generate_consensus_values (async body, the fee/size accounting loop up to the parent lookup)", "Transaction::get_serialized_size"],
   "blocks of 1..=2 transactions, every type (9^n) and fee symbolic", covers=2)
 
